@@ -236,6 +236,30 @@ example : WellFormedCall [⟨"item", none⟩, ⟨"bucket", some (.lit (.list [])
       simp only [Key.pos.injEq, eq_iff_iff, iff_false]; omega
     simp [lookup, this]
 
+/-- **Return members are fresh, one call** (any heap, any signature, any well-formed call; member names
+    distinct and none named like a parameter): every return member starts in the callee's entry context as its
+    declared default, and a declared default is a NEW object — whatever earlier instances did to theirs. -/
+theorem return_members_fresh_call (h : Heap) (params rets : List Param) (ua : Ctx) (k : Nat) (form : CallForm)
+    (flow : String) (n caller : Nat) (hwf : WellFormedCall params rets ua k) (hrn : (pnames rets).Nodup) :
+    ∃ f0 f, createFlowInstance flow (allocDefaults h params).2 (allocDefaults (allocDefaults h params).1 rets).2
+          (startArgs ua form flow n caller) = .ok f0 ∧
+      startFlow false (startArgs ua form flow n caller) f0 = .ok f ∧
+      ∀ j (hj : j < rets.length),
+        lookup (.name rets[j].name) (derefCtx (allocDefaults (allocDefaults h params).1 rets).1 f.context) = some rets[j].dfltVal ∧
+        (rets[j].dflt.isSome → ∃ a, h.length ≤ a ∧ lookup (.name rets[j].name) f.context = some (addr a)) :=
+  return_members_fresh_call_core h params rets ua k form flow n caller hwf hrn
+
+/-- non-vacuity: `flow fa $a -> $r=[]` called as `fa(x)` -/
+example : WellFormedCall [⟨"a", none⟩] [⟨"r", some (.lit (.list []))⟩] [(.pos 0, addr 0)] 1 ∧
+    (pnames [⟨"r", some (.lit (.list []))⟩]).Nodup := by
+  refine ⟨⟨by decide, by simp [lookup], by simp [pnames], by simp, ?_, ?_⟩, by simp [pnames]⟩
+  · intro i hi; have : i = 0 := by omega
+    subst this; simp [lookup]
+  · intro i hi
+    have : (Key.pos 0 = Key.pos i) = False := by
+      simp only [Key.pos.injEq, eq_iff_iff, iff_false]; omega
+    simp [lookup, this]
+
 /-- **Defaults are fresh, every call of every history** (induction over whole executions of `hexec`, from
     ANY state — any heap, any instances, whatever was mutated before): every callee entry recorded during
     the execution obeys the statement's rule `EntryOK`: if the call is well-formed for the callee's
